@@ -68,6 +68,10 @@ var c14Scenarios = [][]c14Op{
 	// ASCII: paths that only such bytes reach), added concurrently; a longer one was added first
 	{{"ADD", "over \xff the moon", "K3"}, {"ADD", "under the \xfe sea \xc3", "K4"}},
 	{{"ADD", "over \xff the moon", "K3"}, {"ADD", "under the \xfe sea \xc3", "K4"}, {"MM", "x over \xff the moon y", ""}},
+	// scenario 17/18 (with values=1;valuebytes=N): a query that IS the big registered value, next to a
+	// small MultipleMatch that has to build the big value's search set first
+	{{"NM", "@E0", ""}, {"MM", "x the quick brown fox y", ""}},
+	{{"MM", "@E0", ""}, {"NM", "@E0", ""}},
 }
 
 // c14InvalidFirst (scenarios 15/16): an invalid-UTF-8 value is registered while the classifier is built.
@@ -172,6 +176,9 @@ func c14Build(precomputed bool) *Classifier {
 func (o c14Op) run(cl *Classifier) string {
 	if o.arg == "@ALL" {
 		o.arg = c14AllText()
+	}
+	if o.arg == "@E0" {
+		o.arg = c14ExtraValue(0)
 	}
 	if strings.HasPrefix(o.arg, "@BIG") {
 		o.arg = c14BigText(o.arg)
